@@ -18,7 +18,11 @@ pub fn try_case(def: &CheckDef, tier: &str, case_seed: u64, sc: &Scenario, decis
     ctx.scenario_override = Some(sc.clone());
     ctx.decisions_override = decisions;
     ctx.strict = strict;
-    let out = (def.case)(&mut ctx);
+    // a candidate scenario can be outside of what the case function expects (e.g. no model left)
+    let out = match std::panic::catch_unwind(std::panic::AssertUnwindSafe(|| (def.case)(&mut ctx))) {
+        Ok(o) => o,
+        Err(_) => return None,
+    };
     if strict && ctx.diverged.is_some() {
         return None;
     }
